@@ -84,3 +84,25 @@ def setup():
         sq.py_json_extract = patch_src(sq, 'py_json_extract', "result = json.dumps(result, **SQLiteJsonConverter.json_kwargs)", "result = json.dumps(result)", sq)
     elif k == 'none': pass
     else: raise SystemExit('unknown canary ' + k)
+
+def setup2():
+    k = os.environ['CANARY']
+    if k == 'contains_not_in_ignored':
+        st.JsonMixin.contains = patch_src(st.JsonMixin, 'contains', "if not_in: sql = [ 'NOT', sql ]", "pass", st)
+    elif k == 'path_not_reversed':
+        st.JsonItemMonad.get_path = patch_src(st.JsonItemMonad, 'get_path', "path.reverse()", "pass", st)
+    elif k == 'json_value_cast_lost':
+        sq.SQLiteBuilder.JSON_VALUE = patch_src(sq.SQLiteBuilder, 'JSON_VALUE', "if type_name is not None: result = 'CAST(', result, ' as ', type_name, ')'", "pass", sq)
+    elif k == 'array_len_nonzero_ge':
+        st.ArrayMixin.nonzero = lambda monad: st.BoolExprMonad(['GE', ['ARRAY_LENGTH', monad.getsql()[0]], ['VALUE', 0]])
+    elif k == 'array_contains_not_in_lost':
+        sq.SQLiteBuilder.ARRAY_CONTAINS = lambda builder, key, not_in, col: ('py_array_contains(', builder(col), ', ', builder(key), ')')
+    elif k == 'array_subset_args_swapped':
+        sq.SQLiteBuilder.ARRAY_SUBSET = lambda builder, array1, not_in, array2: (('NOT ' if not_in else ''), 'py_array_subset(', builder(array1), ', ', builder(array2), ')')
+    elif k == 'json_len_plus':
+        st.JsonMixin.len = lambda monad: st.NumericExprMonad(int, ['ADD', ['JSON_ARRAY_LENGTH', monad.getsql()[0]], ['VALUE', 1]])
+    else: return False
+    return True
+_setup1 = setup
+def setup():
+    if not setup2(): _setup1()
